@@ -5,6 +5,7 @@ import (
 	"fmt"
 	"sort"
 	"strings"
+	"sync"
 	"time"
 
 	"github.com/KevoDB/kevo/pkg/transaction"
@@ -557,6 +558,70 @@ func runC19(c *core.Ctx, res *core.Result) {
 				if e1 == nil || e2 == nil || e3 == nil {
 					fail("finished_handle_usable", fmt.Sprintf("after commit/rollback the handle still works: TxGet err=%v, Commit err=%v, TxPut err=%v", e1, e2, e3))
 				}
+			}
+		}
+		cancel()
+	}
+	// two (or three) clients ask for a transaction at the same time while a third holds the lock:
+	// every client must get its own, independently usable handle
+	if len(res.Violations) == 0 && rw == nil && len(ros) == 0 && c.Idx%4 == 3 {
+		ctx, cancel := ctxT(60 * time.Second)
+		holder, err := cl.BeginTransaction(ctx, &pb.BeginTransactionRequest{ReadOnly: false})
+		if err == nil {
+			cl.TxPut(ctx, &pb.TxPutRequest{TransactionId: holder.TransactionId, Key: []byte("held"), Value: []byte("v")})
+			nw := r.Range(2, 3)
+			ids := make([]string, nw)
+			errs := make([]error, nw)
+			var cwg sync.WaitGroup
+			for i := 0; i < nw; i++ {
+				cwg.Add(1)
+				go func(i int) {
+					defer cwg.Done()
+					resp, err := cl.BeginTransaction(ctx, &pb.BeginTransactionRequest{ReadOnly: true})
+					if err == nil {
+						ids[i] = resp.TransactionId
+					}
+					errs[i] = err
+				}(i)
+			}
+			time.Sleep(time.Duration(r.Range(20, 80)) * time.Millisecond) // the begins are now waiting for the lock
+			_, cerr := cl.CommitTransaction(ctx, &pb.CommitTransactionRequest{TransactionId: holder.TransactionId})
+			cwg.Wait()
+			trace = append(trace, fmt.Sprintf("concurrent BeginTransaction x%d while a read-write handle was open -> handles %v errors %v (holder commit %v)", nw, ids, errs, cerr))
+			kinds += "C"
+			if cerr == nil {
+				model.Put([]byte("held"), []byte("v"))
+				keys = append(keys, []byte("held"))
+			}
+			seen := map[string]bool{}
+			for i, id := range ids {
+				if errs[i] != nil {
+					fail("request_failed", fmt.Sprintf("a BeginTransaction that waited for the lock failed: %v", errs[i]))
+					break
+				}
+				if seen[id] || id == holder.TransactionId {
+					fail("transaction_handle_shared", fmt.Sprintf("two clients that began transactions at the same time received the same handle %s (all handles: %v)", id, ids))
+					break
+				}
+				seen[id] = true
+			}
+			// every handle works on its own; finishing one leaves the others usable
+			for i, id := range ids {
+				if len(res.Violations) > 0 {
+					break
+				}
+				g, gerr := cl.TxGet(ctx, &pb.TxGetRequest{TransactionId: id, Key: []byte("held")})
+				if gerr != nil || (cerr == nil && (!g.Found || string(g.Value) != "v")) {
+					fail("tx_get_mismatch", fmt.Sprintf("handle %s (client %d of %d concurrent begins) is not usable: TxGet err=%v resp=%v", id, i, nw, gerr, g))
+					break
+				}
+				if _, ferr := cl.RollbackTransaction(ctx, &pb.RollbackTransactionRequest{TransactionId: id}); ferr != nil {
+					fail("request_failed", fmt.Sprintf("finishing handle %s failed: %v", id, ferr))
+				}
+			}
+			txByHandle += nw
+			if len(res.Violations) == 0 {
+				probe("transactions begun concurrently by several clients")
 			}
 		}
 		cancel()
